@@ -241,6 +241,39 @@ func scrub(it secs2.Item, gt, loc bool) secs2.Item {
 
 // classify names the failure class of a failed round trip: if removing exactly one known defect
 // class from the message makes the round trip pass, the failure belongs to that class.
+// countLists counts the lists of a tree that are empty (emptyOnly) or all lists.
+func countLists(it secs2.Item, emptyOnly bool) int {
+	if !it.IsList() {
+		return 0
+	}
+	cs, _ := it.ToList()
+	n := 0
+	if !emptyOnly || len(cs) == 0 {
+		n = 1
+	}
+	for _, c := range cs {
+		n += countLists(c, emptyOnly)
+	}
+	return n
+}
+
+func bucket(n int) string {
+	switch {
+	case n <= 2:
+		return fmt.Sprintf("%03d", n)
+	case n < 10:
+		return "003-009"
+	case n < 62:
+		return "010-061"
+	case n <= 66:
+		return fmt.Sprintf("%03d", n)
+	case n < 200:
+		return "067-199"
+	default:
+		return "200+"
+	}
+}
+
 // nesting is the list nesting of an item: 0 for a leaf, 1 + the deepest child for a list.
 func nesting(it secs2.Item) int {
 	if !it.IsList() {
@@ -371,20 +404,46 @@ func main() {
 		c.Count("P/" + origin + "/" + strings.Join(strings.Fields(res)[:2], "-"))
 		// second half of the property: what the parser accepts re-encodes and re-parses equal
 		if err == nil {
-			for _, m := range ms {
-				it, ierr := m.Item()
-				if ierr != nil || !inDomain(it, true) {
+			for _, m0 := range ms {
+				it0, ierr := m0.Item()
+				if ierr != nil || !inDomain(it0, true) {
 					continue
 				}
-				o := randOpts(r, true)
-				if ok, why := roundTrips(m, o); !ok {
-					syn, _ := smlcase.Syntax(it)
-					kase := vh.Join("R", o.syntax(), fmt.Sprintf("depth=%d", nesting(it)), fmt.Sprint(m.Stream()), fmt.Sprint(m.Function()), vh.B01(m.WaitBit()), syn)
-					what := classify(m, o, why) + " (re-encode of accepted text)"
-					if strings.Contains(what, "containing '>'") || strings.Contains(what, "strconv.Quote escapes") || strings.Contains(what, "nested deeper than 64") {
-						failGT(what, kase)
-					} else {
-						c.Fail(what, kase)
+				// the accepted message itself, and an EDITED one: its body put between closed and
+				// empty sibling lists (parse -> edit -> encode -> parse)
+				cands := []*hsms.DataMessage{m0}
+				if !it0.IsEmpty() && nesting(it0) < depthCap-1 && r.Intn(2) == 0 {
+					k := []int{1, 2, 5, 62, 64, 70}[r.Intn(6)]
+					kids := make([]secs2.Item, 0, k+2)
+					for i := 0; i < k; i++ {
+						if i%3 == 2 {
+							kids = append(kids, secs2.NewListItem(secs2.NewBinaryItem(byte(i))))
+						} else {
+							kids = append(kids, secs2.NewListItem())
+						}
+					}
+					kids = append(kids, it0, secs2.NewListItem(secs2.NewListItem(), it0))
+					if me, err := hsms.NewDataMessage(m0.Stream(), m0.Function(), m0.WaitBit(), 0, [4]byte{}, secs2.NewListItem(kids...)); err == nil {
+						cands = append(cands, me)
+						c.Count("oracle/edited")
+					}
+				}
+				for ci, m := range cands {
+					it, _ := m.Item()
+					c.Count("reparse/empty-lists/" + bucket(countLists(it, true)))
+					o := randOpts(r, true)
+					if ok, why := roundTrips(m, o); !ok {
+						syn, _ := smlcase.Syntax(it)
+						kase := vh.Join("R", o.syntax(), fmt.Sprintf("depth=%d", nesting(it)), fmt.Sprint(m.Stream()), fmt.Sprint(m.Function()), vh.B01(m.WaitBit()), syn)
+						what := classify(m, o, why) + " (re-encode of accepted text)"
+						if ci > 0 {
+							what = classify(m, o, why) + " (accepted text, body edited, re-encoded)"
+						}
+						if strings.Contains(what, "containing '>'") || strings.Contains(what, "strconv.Quote escapes") || strings.Contains(what, "nested deeper than 64") {
+							failGT(what, kase)
+						} else {
+							c.Fail(what, kase)
+						}
 					}
 				}
 			}
@@ -473,6 +532,8 @@ func main() {
 
 	oracle := func(m *hsms.DataMessage, o opts) {
 		it, _ := m.Item()
+		c.Count("oracle/empty-lists/" + bucket(countLists(it, true)))
+		c.Count("oracle/closed-lists/" + bucket(countLists(it, false)))
 		if !inDomain(it, true) {
 			c.Count("oracle/out-of-domain")
 			return
@@ -549,6 +610,50 @@ func main() {
 		}
 		sized = append(sized, it)
 	}
+	// ---- many empty / closed sibling lists, at several levels, alone and mixed with nesting near
+	// the parser's cap: closing a list must give its nesting level back, however it was closed
+	tail := func() secs2.Item { return secs2.NewListItem(secs2.NewASCIIItem("tail")) }
+	chain := func(depth int, leaf secs2.Item, sib func() secs2.Item) secs2.Item { // depth lists around leaf
+		it := leaf
+		for i := 0; i < depth; i++ {
+			if sib != nil {
+				it = secs2.NewListItem(sib(), it)
+			} else {
+				it = secs2.NewListItem(it)
+			}
+		}
+		return it
+	}
+	empty := func() secs2.Item { return secs2.NewListItem() }
+	closed := func() secs2.Item { return secs2.NewListItem(secs2.NewBinaryItem(byte(1))) }
+	for _, k := range []int{0, 1, 2, 62, 63, 64, 65, 200} {
+		for _, mk := range []func() secs2.Item{empty, closed} {
+			sibs := func(n int) []secs2.Item {
+				out := make([]secs2.Item, n)
+				for i := range out {
+					out[i] = mk()
+				}
+				return out
+			}
+			// k siblings, then a list (depth 2)
+			sized = append(sized, secs2.NewListItem(append(sibs(k), tail())...))
+			// the list first, then k siblings
+			sized = append(sized, secs2.NewListItem(append([]secs2.Item{tail()}, sibs(k)...)...))
+			// at several levels at once
+			sized = append(sized, secs2.NewListItem(
+				secs2.NewListItem(append(sibs(k), secs2.NewListItem(tail()))...),
+				secs2.NewListItem(sibs(k)...),
+				chain(3, secs2.NewUintItem(1, uint64(7)), nil), tail()))
+			// k siblings at the top, then nesting that ends exactly at / just below the cap
+			for _, d := range []int{60, 62, 63} {
+				sized = append(sized, secs2.NewListItem(append(sibs(k), chain(d, secs2.NewBooleanItem(true), nil))...))
+			}
+		}
+	}
+	// one sibling at EVERY level of a chain that reaches the cap (64 lists in all)
+	sized = append(sized, chain(64, secs2.NewBinaryItem(), nil), chain(63, secs2.NewListItem(), nil),
+		chain(63, secs2.NewBinaryItem(), empty), chain(63, secs2.NewBinaryItem(), closed), chain(30, tail(), empty), chain(62, tail(), closed))
+
 	for _, it := range sized {
 		m := mkMsg(it)
 		if m == nil {
@@ -609,6 +714,14 @@ func main() {
 	// the parser's nesting cap (secs2.MaxListDepth = 64): at, below and above it; the counter
 	// must come back down when a list closes (siblings at the deepest admitted level) and start
 	// from zero in every message
+	// many empty / closed siblings in compact text: their levels must be given back
+	for _, k := range []int{0, 1, 62, 63, 64, 65, 200} {
+		for _, sib := range []string{"<L>", "<L[0]>", "<L <B 1>>", "<L\n>"} {
+			pcase("S1F1 <L "+strings.Repeat(sib, k)+"<L <A 'tail'>>>.", "siblings")
+			pcase("S1F1 <L <L "+strings.Repeat(sib+" ", k)+"> "+strings.Repeat(sib, k)+strings.Repeat("<L ", 62)+strings.Repeat(">", 62)+">.", "siblings")
+			pcase("S1F1 <L "+strings.Repeat(sib, k)+">. S2F1 "+strings.Repeat("<L ", 64)+strings.Repeat(">", 64)+".", "siblings")
+		}
+	}
 	for _, n := range []int{1, 63, 64, 65, 66, 100, 300} {
 		open, cl := strings.Repeat("<L ", n), strings.Repeat(">", n)
 		pcase("S1F1 "+open+cl+".", "depth")
